@@ -24,7 +24,9 @@ ENGINE = "hypothesis"
 TECHNIQUE = "property-based testing over a type-hint grammar: independent conformance validator, near-miss catalogue, metamorphic compositionality / Union-permutation relations"
 LEVEL_TEXT = ("Random type hints of the grammar up to depth 3 (quick) / 4 (thorough) with conforming values, single-position near misses, "
               "look-alike strings and all permutations of each Union; soundness is judged by a validator that never consults the library, "
-              "compositionality by comparing the library with itself across contexts. Exploration of an infinite space: bounded by the grammar.")
+              "compositionality by comparing the library with itself across contexts. Two small families are enumerated completely in every "
+              "run: path types as hints x file names a YAML reader would not take for a string, and Unions whose first member refuses "
+              "a value in an unusual way. Exploration of an infinite space: bounded by the grammar.")
 LEVEL_NOTE = ("Trusted: the shape->type mapping and the conformance validator in vf/gen/types.py (self-tested), the near-miss catalogue "
               "(deliberately conservative: values a documented coercion accepts are not near misses). The value a Union picks may depend "
               "on member order; only accept/reject is compared.")
